@@ -116,6 +116,7 @@ func genC18TCP(t *rapid.T) C18TCP {
 }
 
 func runC18TCP(c C18TCP, info *kit.Info) *kit.Finding {
+	defer kit.NoGC()() // leaked sockets must not be rescued by finalizers
 	kit.InstallFakeDNS()
 	panics0 := kit.Logs.PanicCount()
 	baseline := map[string]bool{}
@@ -358,6 +359,7 @@ func c18SrcIP(class string) string {
 }
 
 func runC18UDP(c C18UDP, info *kit.Info) *kit.Finding {
+	defer kit.NoGC()() // leaked sockets must not be rescued by finalizers
 	kit.InstallFakeDNS()
 	panics0 := kit.Logs.PanicCount()
 	baseline := map[string]bool{}
